@@ -12,6 +12,8 @@ import ASV.Proofs.Parser.Alias
 import ASV.Proofs.Parser.SubstRule
 import ASV.Proofs.Parser.FuelTop
 import ASV.Proofs.Parser.Reprint11
+import ASV.Proofs.Rulesets
+import ASV.Proofs.Parser.FilePP
 namespace ASV.C02
 open ASV ASV.Rules ASV.Parser ASV.Grammar ASV.Layout ASV.Reprint
 
@@ -155,6 +157,42 @@ theorem rule_parsed_as_denoted (cfg : Cfg) (name cat : String) (cutoffKb nbhKb :
 /-- … and the main loop then scales them by the multipliers: `int(kb * 1000 * p/q)` -/
 theorem distances_scaled (kb : Nat) (mul : Nat × Nat) : scale (kb * 1000) mul = distance kb mul := rfl
 
+/-- the same for a whole alias-free file of one or more written rules, each with an optional
+    `SUPERIORS` section, under any multipliers: `Parser.__init__` on the file's tokens (after the rules `earlier` of other
+    files) stores exactly the rules the grammar denotes, in order — distances `int(kb * 1000 * multiplier)`, superiors the
+    declared ones closed over the superiors of each of them (`closeSup`), conditions the objects of
+    the syntax tree.  `srcsOk` is what the text must satisfy to be legal: known category and
+    profiles, a name not used before, operands not repeated, something positive, superiors distinct
+    and defined earlier.  (No fuel hypothesis: the model's own budget suffices.) -/
+theorem file_parsed_as_denoted (cfg : Cfg) (earlier : List Rule) (rs : List RuleSrc) (hne : rs ≠ [])
+    (hok : srcsOk cfg earlier rs = true) :
+    parseTokens cfg earlier [] (rs.flatMap ruleSrcToks) = .ok (denote cfg earlier rs, []) :=
+  parseTokens_file cfg earlier rs hne hok
+
+/-- … and so for `create_rules` on any number of files, each a text the tokeniser reads as the
+    tokens of its written rules (any layout and comments, by `tokenise_layout`): the rules of all
+    files in order, every rule seeing the rules of earlier files (duplicate names and superiors
+    across files included in `srcsOk`) -/
+theorem files_created_as_denoted (cfg : Cfg) (files : List (String × List RuleSrc))
+    (hf : ∀ f ∈ files, f.2 ≠ [] ∧ tokenise f.1 = .ok (f.2.flatMap ruleSrcToks))
+    (hok : srcsOk cfg [] (files.flatMap (·.2)) = true) :
+    createRules cfg (files.map (·.1)) [] [] = .ok (denote cfg [] (files.flatMap (·.2))) :=
+  createRules_files cfg files [] hf hok
+
+/-- non-vacuity: three rules, the third below the second which is below the first; fungal
+    multipliers 1/2 and 3/2 -/
+def exSrcs : List RuleSrc :=
+  [⟨"r1", "cat", 20, 5, [], .one (.one (.id false "a"))⟩,
+   ⟨"r2", "cat", 15, 10, ["r1"], .or (.one (.id false "a")) (.one (.and (.id false "b") (.one (.id true "c"))))⟩,
+   ⟨"r3", "cat", 1, 3, ["r2"], .one (.one (.id false "c"))⟩]
+def exMulCfg : Cfg := { sigs := ["a", "b", "c"], cats := ["cat"], cutoffMul := (1, 2), nbhMul := (3, 2) }
+example : srcsOk exMulCfg [] exSrcs = true := by decide +kernel
+example : (tokenise ("RULE r1 CATEGORY cat CUTOFF 20 NEIGHBOURHOOD 5 CONDITIONS a # first\n" ++
+    "RULE r2 CATEGORY cat SUPERIORS r1 CUTOFF 15 NEIGHBOURHOOD 10 CONDITIONS a or b and not c")).toOption
+    = some ((exSrcs.take 2).flatMap ruleSrcToks) := by decide +kernel
+example : (denote exMulCfg [] exSrcs).map (fun r => (r.name, r.cutoff, r.neighbourhood, r.superiors)) =
+    [("r1", 10000, 7500, []), ("r2", 7500, 15000, ["r1"]), ("r3", 500, 4500, ["r1", "r2"])] := by decide +kernel
+
 /-- both directions together: a token string is accepted as CONDITIONS with result `L` only if
     it is the flattening of `L` (`conditions_accepts_only_grammar`), and the flattening of every
     legal `L` is accepted with result `L` (`parse_keys`) — so the parser is a bijection between
@@ -220,12 +258,136 @@ theorem alias_is_substitution_rule (cfg : Cfg) (s : PS) (hf : Flat s.aliases) :
     RelS RuleRel (parseRule cfg (strip s)) (parseRule cfg s) :=
   parseRule_rel hf cfg
 
+/-- thm 4 and completeness together: a rule whose CONDITIONS are written *with aliases* — any state
+    with a flat table whose substituted input is the mandatory sections followed by tokens `w` that
+    read (type and text; the `aliased` flags the substituted tokens carry do not matter) like the
+    rendering of a legal syntax tree `t`, then the next `RULE`/`DEFINE` or the end — is parsed into
+    the rule the grammar denotes for the substituted text. -/
+theorem aliased_rule_parsed_as_denoted (cfg : Cfg) (s : PS) (hf : Flat s.aliases) (name cat : String)
+    (cutoffKb nbhKb : Nat) (t : OrE) (w k cons : List Tok) (rules : List Rule)
+    (hs : strip s = ofStream (hdrToks name cat cutoffKb nbhKb ++ w ++ k) cons rules)
+    (hw : w.map Tok.key = (ppOr t).map Tok.key)
+    (hcat : cfg.cats.contains cat = true) (ht : okTop t = true) (hpos : positive (shapeTop t) = true)
+    (hk : headType k = none ∨ headType k = some .rule ∨ headType k = some .define) :
+    ∃ r' s', parseRule cfg s = .ok (r', s') ∧ r'.name = name ∧ r'.category = cat ∧
+      r'.cutoff = cutoffKb * 1000 ∧ r'.neighbourhood = nbhKb * 1000 ∧ r'.conditions = shapeTop t ∧
+      strip s' = ofStream k ((hdrToks name cat cutoffKb nbhKb ++ w).reverse ++ cons) rules := by
+  have h := parseRule_rel hf cfg
+  have ht' := ht
+  simp only [okTop, Bool.and_eq_true, Bool.not_eq_true'] at ht'
+  have g := okOr_goods false t ht'.1.1 ht'.1.2
+  rw [hs, parseRule_keys cfg name cat cutoffKb nbhKb (shapeOr t) w k cons rules hcat (shapeOr_ne_nil t)
+    g.shape g.norep ht'.2 (by rw [hw, ppOr_keys]) hpos hk] at h
+  cases hp : parseRule cfg s with
+  | error e => rw [hp] at h; exact h.elim
+  | ok v =>
+    obtain ⟨r', s'⟩ := v
+    rw [hp] at h
+    obtain ⟨⟨h1, h2, h3, h4, h5, _⟩, hst⟩ := h
+    exact ⟨r', s', rfl, h1.symm, h2.symm, h3.symm, h4.symm, h5.symm, hst.symm⟩
+
+/-- non-vacuity: `DEFINE x AS a or b` in force, the text `… CONDITIONS x and c` reads after
+    substitution like `a or b and c` = `a or (b and c)` -/
+example :
+    let x : List Tok := [⟨"a", .identifier, true⟩, ⟨"or", .orOp, true⟩, ⟨"b", .identifier, true⟩]
+    let s : PS := { cur := some (kw "RULE" .rule),
+                    rest := (hdrToks "r" "cat" 20 5).tail ++ [tId "x", kw "and" .andOp, tId "c"],
+                    aliases := [("x", x)], rules := [] }
+    strip s = ofStream (hdrToks "r" "cat" 20 5 ++ (x ++ [kw "and" .andOp, tId "c"]) ++ []) [] [] ∧
+    (x ++ [kw "and" .andOp, tId "c"]).map Tok.key =
+      (ppOr (.or (.one (.id false "a")) (.one (.and (.id false "b") (.one (.id false "c")))))).map Tok.key := by
+  intro x s
+  exact ⟨by rfl, by decide +kernel⟩
+
 /-- what `strip` is on the state a `Parser` starts a rule in: no aliases, input `t :: subst A rest` -/
 example (t : Tok) (rest : List Tok) (A : Aliases) (rules : List Rule) :
     strip { cur := some t, rest := rest, aliases := A, rules := rules } =
       { cur := some t, rest := subst A rest, aliases := [], rules := rules } := rfl
 
 example : Flat [] := ⟨by simp, by simp, by simp⟩
+
+/-! ### "scaled by the multipliers": rulesets handed to detection runs (`get_ruleset`, its cache,
+    `Ruleset.__post_init__` rescaling rule objects in place, `copy_with_replacements` sharing them) -/
+
+/-- Whatever sequence of rulesets one process asks for (any strictness, taxon, multipliers, rule or
+    category restriction, repetitions), every ruleset handed out — read *after the last request* —
+    holds exactly the rules of its strictness that its restriction wants, each distance being the
+    parsed one (kilobases × 1000, `distances_scaled`) scaled once by the multipliers of the request
+    it was built for: no later request rescales or compounds it (the rule objects of different cached
+    rulesets are never shared).  `parsed` = what `create_rules` returns for a strictness. -/
+theorem rulesets_scaled_once (parsed : String → Except Err (List Rule)) (reqs : List Rulesets.Req)
+    (out : List Rulesets.RS) (st : Rulesets.State) (h : Rulesets.run parsed reqs {} = .ok (out, st)) :
+    out.length = reqs.length ∧
+    ∀ rs ∈ out, ∃ k rules, (k, rs) ∈ st.cache ∧ parsed k.strictness = .ok rules ∧
+      rs.read st.heap = Rulesets.wanted rules k.names k.cats k.mul ∧ rs.mul = k.mul := by
+  obtain ⟨inv, _, hlen, hout⟩ := Rulesets.run_inv parsed reqs {} st out h (fun p hp => by cases hp)
+  refine ⟨hlen, fun rs hrs => ?_⟩
+  obtain ⟨k, hk⟩ := hout rs hrs
+  obtain ⟨_, rules, hp, hr, hm⟩ := inv (k, rs) hk
+  exact ⟨k, rules, hk, hp, hr, hm⟩
+
+/-- one `get_ruleset` call in any reachable state: the ruleset returned is stored under the key of
+    the request (its strictness, its restriction as sets, the multipliers of the options for fungi,
+    `Multipliers()` otherwise), it reads as the spec says, and everything cached before still does -/
+theorem ruleset_of_request (parsed : String → Except Err (List Rule)) (q : Rulesets.Req) (st st' : Rulesets.State)
+    (rs : Rulesets.RS) (h : Rulesets.getRuleset parsed q st = .ok (rs, st')) (inv : Rulesets.Inv parsed st) :
+    Rulesets.Inv parsed st' ∧
+    ∃ k rules, (k, rs) ∈ st'.cache ∧ k.strictness = q.strictness ∧ k.names = sortDedupStr q.names ∧
+      k.cats = sortDedupStr q.cats ∧ Rulesets.reqMul q = .ok k.mul ∧ parsed q.strictness = .ok rules ∧
+      rs.read st'.heap = Rulesets.wanted rules k.names k.cats k.mul := by
+  obtain ⟨inv', ⟨k, hk, h1, h2, h3, h4, h5⟩, _⟩ := Rulesets.getRuleset_inv parsed q st st' rs h inv
+  obtain ⟨_, rules, hp, hr, _⟩ := inv' (k, rs) hk
+  refine ⟨inv', k, rules, hk, h1, h2, h3, ?_, by rw [← h1]; exact hp, hr⟩
+  unfold Rulesets.reqMul
+  cases hf : q.fungi with
+  | false => simp [h4 hf]
+  | true => simp [h5 hf]
+
+/-- `Ruleset.from_files(…, multipliers)` (as repaired by fixes/D201): scaled once -/
+theorem from_files_scaled_once (rules : List Rule) (m : Rulesets.Mul) (h : Rulesets.Heap) :
+    (Rulesets.fromFiles rules m h).1.read (Rulesets.fromFiles rules m h).2 = Rulesets.wanted rules [] [] m :=
+  Rulesets.fromFiles_read rules m h
+
+/-- fungi ×2/×1.5, then bacteria, then fungi ×1/×3 limited to one rule: nothing compounds -/
+example :
+    let parsed : String → Except Err (List Rule) := fun _ =>
+      .ok [{ name := "a", category := "c", cutoff := 10000, neighbourhood := 5000, conditions := .single false "x" },
+           { name := "b", category := "d", cutoff := 20000, neighbourhood := 3000, conditions := .single false "y" }]
+    (match Rulesets.run parsed
+        [⟨"relaxed", [], [], true, (2, 1), (3, 2)⟩, ⟨"relaxed", [], [], false, (1, 1), (1, 1)⟩,
+         ⟨"relaxed", ["b"], [], true, (1, 1), (3, 1)⟩] {} with
+      | .ok (out, st) => out.map fun rs => (rs.read st.heap).map fun r => (r.name, r.cutoff, r.neighbourhood)
+      | .error _ => []) =
+    [[("a", 20000, 7500), ("b", 40000, 4500)], [("a", 10000, 5000), ("b", 20000, 3000)], [("b", 20000, 9000)]] := by
+  decide +kernel
+
+/-- the option handling in front of it (`check_options`, run before any analysis): when it reports no
+    issue, the fungal multipliers are positive, every requested rule name is a rule of the requested
+    strictness and every requested category is known; the ruleset has been built and cached, it is
+    the one `get_ruleset` hands to the analysis afterwards (a cache hit, state unchanged), and it
+    reads as the spec says.  (When an issue is reported nothing was cached: `checkOptions_bad`.) -/
+theorem options_checked_then_ruleset (parsed : String → Except Err (List Rule)) (allCats : List String)
+    (q : Rulesets.Req) (st st' : Rulesets.State) (inv : Rulesets.Inv parsed st)
+    (h : Rulesets.checkOptions parsed allCats q st = .ok (true, st')) :
+    ∃ rs rules m, Rulesets.getRuleset parsed q st' = .ok (rs, st') ∧ Rulesets.Inv parsed st' ∧
+      parsed q.strictness = .ok rules ∧ Rulesets.reqMul q = .ok m ∧ 0 < q.cmul.1 ∧ 0 < q.nmul.1 ∧
+      (∀ n ∈ q.names, ∃ r ∈ rules, r.name = n) ∧ (∀ c ∈ q.cats, c ∈ allCats) ∧
+      rs.read st'.heap = Rulesets.wanted rules (sortDedupStr q.names) (sortDedupStr q.cats) m := by
+  obtain ⟨rs, rules, hg, hg2, hp, hc, hn, hnames, hcats⟩ := Rulesets.checkOptions_ok parsed allCats q st st' h
+  obtain ⟨inv', k, rules', _, _, h2, h3, h4, h5, h6⟩ := ruleset_of_request parsed q st st' rs hg inv
+  rw [hp] at h5
+  cases h5
+  exact ⟨rs, rules, k.mul, hg2, inv', hp, h4, hc, hn, hnames, hcats, by rw [h6, h2, h3]⟩
+
+example :
+    let parsed : String → Except Err (List Rule) := fun _ =>
+      .ok [{ name := "a", category := "c", cutoff := 10000, neighbourhood := 5000, conditions := .single false "x" },
+           { name := "b", category := "d", cutoff := 20000, neighbourhood := 3000, conditions := .single false "y" }]
+    ((Rulesets.checkOptions parsed ["c", "d"] ⟨"strict", ["b"], ["d"], true, (1, 2), (3, 2)⟩ {}).toOption.map (·.1),
+     (Rulesets.checkOptions parsed ["c", "d"] ⟨"strict", ["zz"], [], true, (1, 2), (3, 2)⟩ {}).toOption.map (·.1),
+     (Rulesets.checkOptions parsed ["c", "d"] ⟨"strict", [], [], false, (0, 1), (3, 2)⟩ {}).toOption.map (·.1))
+    = (some true, some false, some false) := by
+  decide +kernel
 
 /-! ### the regenerated text parses back (thm 7) -/
 
@@ -300,25 +462,7 @@ theorem fuel_never_exhausted (cfg : Cfg) (files : List String) :
     createRules cfg files [] [] ≠ .error .fuel :=
   createRules_nf cfg files [] [] ⟨by simp, by simp, by simp⟩
 
-/-! ### non-vacuity: each listed class of ill-formed input on a concrete text -/
+/-! non-vacuity of the rejection theorems, each listed class of ill-formed input on a concrete text:
+    `Props/C02Examples.lean` (split off to keep this file's build time down) -/
 
-def exCfg : Cfg := { sigs := ["a", "b", "c"], cats := ["cat"] }
-def exHead (name : String) : String := "RULE " ++ name ++ " CATEGORY cat CUTOFF 20 NEIGHBOURHOOD 5 CONDITIONS "
-def exErr (files : List String) : Option Err :=
-  match createRules exCfg files [] [] with
-  | .error e => some e
-  | .ok _ => none
-
-example : exErr [exHead "r" ++ "a and (b or not c)"] = none := by decide +kernel
-example : exErr [exHead "r" ++ "a and zz"] = some .value := by decide +kernel                      -- unknown profile
-example : exErr ["RULE r CATEGORY nope CUTOFF 1 NEIGHBOURHOOD 1 CONDITIONS a"] = some .syntax := by decide +kernel
-example : exErr [exHead "r" ++ "a", exHead "r" ++ "b"] = some .value := by decide +kernel          -- duplicate rule, second file
-example : exErr ["DEFINE x AS a DEFINE x AS b " ++ exHead "r" ++ "a"] = some .syntax := by decide +kernel  -- duplicate alias
-example : exErr ["DEFINE x AS a or x " ++ exHead "r" ++ "x"] = some .value := by decide +kernel    -- D42
-example : exErr [exHead "r" ++ "a or (a)"] = some .value := by decide +kernel                      -- repeated operand
-example : exErr [exHead "r" ++ "(a or b"] = some .syntax := by decide +kernel                      -- unbalanced
-example : exErr [exHead "r" ++ "cds(a)"] = some .syntax := by decide +kernel
-example : exErr [exHead "r" ++ "not a and not (b or c)"] = some .value := by decide +kernel        -- nothing positive
-example : exErr ["RULE r CATEGORY cat SUPERIORS s CUTOFF 1 NEIGHBOURHOOD 1 CONDITIONS a " ++ exHead "s" ++ "b"]
-    = some .value := by decide +kernel                                                              -- superior defined later
 end ASV.C02
